@@ -1,4 +1,5 @@
 import Slu.Model.Cx
+import SluProofs.Lemmas.CxRat
 import Mathlib.Algebra.Ring.Defs
 import Mathlib.Algebra.Order.Field.Rat
 import Mathlib.Tactic.Ring
@@ -9,8 +10,8 @@ involution that fixes the real axis.  Used by the C05 theorems to cover complex 
 -/
 namespace Slu.Cx
 
-@[ext] theorem ext' {R : Type} {a b : Cx R} (h1 : a.re = b.re) (h2 : a.im = b.im) : a = b := by
-  cases a; cases b; simp_all
+-- `ext'` and the `CommRing (Cx Rat)` / `Field (Cx Rat)` instances come from Lemmas/CxRat.lean
+attribute [local ext] ext'
 
 @[simp] theorem add_re (a b : Cx Rat) : (a + b).re = a.re + b.re := rfl
 @[simp] theorem add_im (a b : Cx Rat) : (a + b).im = a.im + b.im := rfl
@@ -24,30 +25,6 @@ namespace Slu.Cx
 @[simp] theorem zero_im : (0 : Cx Rat).im = 0 := rfl
 @[simp] theorem one_re : (1 : Cx Rat).re = 1 := rfl
 @[simp] theorem one_im : (1 : Cx Rat).im = 0 := rfl
-
-instance : CommRing (Cx Rat) where
-  add := (· + ·)
-  add_assoc a b c := by ext <;> simp <;> ring
-  zero := 0
-  zero_add a := by ext <;> simp
-  add_zero a := by ext <;> simp
-  nsmul := nsmulRec
-  add_comm a b := by ext <;> simp <;> ring
-  mul := (· * ·)
-  left_distrib a b c := by ext <;> simp <;> ring
-  right_distrib a b c := by ext <;> simp <;> ring
-  zero_mul a := by ext <;> simp
-  mul_zero a := by ext <;> simp
-  mul_assoc a b c := by ext <;> simp <;> ring
-  one := 1
-  one_mul a := by ext <;> simp
-  mul_one a := by ext <;> simp
-  neg := (- ·)
-  sub := (· - ·)
-  sub_eq_add_neg a b := by ext <;> simp <;> ring
-  zsmul := zsmulRec
-  neg_add_cancel a := by ext <;> simp
-  mul_comm a b := by ext <;> simp <;> ring
 
 @[simp] theorem conj_re (a : Cx Rat) : (Cx.conj a).re = a.re := rfl
 @[simp] theorem conj_im (a : Cx Rat) : (Cx.conj a).im = -a.im := rfl
